@@ -253,6 +253,17 @@ func (m *Monitors) judgeCreatedResources(inv *simapi.Invocation, v *ERSView, c *
 		}
 		m.viol("C10", "C10.resources-precedence", map[string]string{"sim": "true", "expected-from": src}, inv,
 			map[string]any{"node": node.Name, "got": got, "acceptable": acc, "annotation": in.Ann, "settings-as-read": describeSettings(v.Settings)})
+		// C18: "only valid settings influence pods"
+		for _, st := range v.Settings {
+			if st.Status.Status == v1.ExtendedDaemonsetSettingStatusValid || st.Spec.Reference == nil || st.Spec.Reference.Name != v.EDS.Name {
+				continue
+			}
+			for _, c := range st.Spec.Containers {
+				if c.Name == ovContainer && apiequality.Semantic.DeepEqual(c.Resources, got) {
+					m.viol("C18", "C18.only-valid-settings-influence-pods", map[string]string{"sim": "true", "settingStatus": string(st.Status.Status)}, inv, map[string]any{"node": node.Name, "setting": st.Name, "got": got})
+				}
+			}
+		}
 		// C12: were they taken from an override or a setting of another ExtendedDaemonSet?
 		own := ovAnnKey(v.EDS.Namespace, v.EDS.Name)
 		for k, a := range node.Annotations {
